@@ -124,6 +124,62 @@ def big_failures(ctx, dist=None, started=None):
     return len(jobs), fails
 
 
+# ---- file-size ladder through files ----------------------------------------------------------------------------------
+
+def filesize_jobs(ctx):
+    """files of 10^3 .. 10^5 (thorough: .. 3*10^6) characters plus n-1, n, n+1, 2n for every integer literal that is new
+    in the source under check; contents: functions made of tokens that span several lines; every rung twice in Python (block ends derived from indentation) and in
+    two other languages taken in turn; LF / CR LF line ends"""
+    rnd = ctx.rng("c05filesize")
+    out = []
+    others = [l for l in sr.LANGS if l != "Python"]
+    for k, n in enumerate(scan_streams.file_size_rungs(ctx)):
+        for lang in ["Python", "Python", others[(2 * k) % len(others)], others[(2 * k + 1) % len(others)]]:
+            out.append({"stream": "file-size", "language": lang, "chars": n, "gen_seed": rnd.randrange(10 ** 9), "newline": rnd.choice(["lf", "lf", "crlf"])})
+    out.sort(key=lambda d: -d["chars"])
+    return out
+
+
+def _filesize_work(desc):
+    """the file on disk -> Scanner.scan_path(root).files -> direct oracle on the text of the file"""
+    import file_front as ff
+    import random
+    text = scan_streams.multiline_text(desc)
+    lang = desc["language"]
+    name = ff.pick_name(lang, random.Random(desc["gen_seed"]), "client", sr.EXT[lang], 0.3)
+    with ff.Tree("c05size_") as tree:
+        tree.write(os.path.join("gen", name), ff.to_bytes(text, desc.get("newline", "lf")))
+        cb, err = tree.scan()
+        if err:
+            return "scan_path: " + err, ["scan_path completes"]
+        e = ff.entries(cb).get(os.path.join("gen", name))
+        if e is None:
+            return "no entry for gen/%s" % name, ["the file's measurements are listed under the path of the file"]
+        reply = ff.encode_reply(e[1])
+        bad = oracle(lang, text, reply)
+        if e[2] != sum(m[5] for m in e[1]):
+            bad.append("file total %d != sum of lengths" % e[2])
+        return "%d measurements, the failing one first: %s" % (len(e[1]), [m for m in e[1] if bad and ("%s@%d:%d" % (m[0], m[1], m[2])) in bad[0]][:1]), bad
+
+
+def filesize_failures(ctx, dist, started=None):
+    jobs = filesize_jobs(ctx)
+    fails = []
+    for d, (r, bad) in zip(jobs, (started or scan_streams.Heavy(_filesize_work, jobs, 6)).results()):
+        dist.setdefault("file_size_ladder", {})[str(d["chars"])] = dist.setdefault("file_size_ladder", {}).get(str(d["chars"]), 0) + 1
+        for b in bad[:1]:
+            fails.append({"input": dict(d), "observed": r, "required": b})
+    fails.sort(key=lambda f: f["input"]["chars"])
+    for f in fails[:2]:
+        # the smallest size at which the same generator still fails
+        d = f["input"]
+        small = scan_streams.bisect_size(lambda k, d=d: bool(_filesize_work(dict(d, chars=k))[1]), 1000, d["chars"], 12.0)
+        r, bad = _filesize_work(dict(d, chars=small))
+        if bad:
+            f.update({"input": dict(d, chars=small, found_at_chars=d["chars"]), "observed": r, "required": bad[0]})
+    return len(jobs), fails
+
+
 def second_scan_probe(lang, code):
     """state probe: scan_file twice on the SAME token list and Language object; the first result is mutated in between
     (list emptied, measurements and their locations overwritten); then the whole pipeline once more from the text"""
@@ -289,7 +345,29 @@ def tree_plan(ctx):
             text = rnd.choice(soup_pool)
         else:
             text = scan_streams.named_program(lang, rnd, extras=True).text(rnd.random() < 0.85)
+        if lang != "Python" and rnd.random() < 0.35:
+            # top-level blocks headed by a word that is a keyword HERE and an identifier in another supported language
+            kws = scan_streams.reverse_cross_names(lang)
+            for _ in range(rnd.randint(1, 3) if kws else 0):
+                text += rnd.choice(["%s (a, b) {\n  x = 1;\n}\n", "int %s(int a) {\n  return a;\n}\n", "void *operator %s(int n) {\n  return n;\n}\n"]) % rnd.choice(kws)
         return ff.to_bytes(text, rnd.choice(ff.NEWLINES), rnd.random() < 0.1, rnd)
+    # case variants of file extensions: every extension Pygments maps to a supported language next to the same stem with
+    # the extension in the other letter case (x.c / x.C, x.h / x.H, x.cpp / x.CPP, x.py / x.PY ...), in one directory,
+    # created in both orders; each file's content is written in the language Pygments gives ITS name (if any)
+    seen = set()
+    for (fn, lang0, _) in sorted(gnames.language_file_names("STEM")):
+        stem, ext = os.path.splitext(fn)
+        other = ext.lower() if ext != ext.lower() else ext.upper()
+        if not ext or other == ext or frozenset((ext, other)) in seen:
+            continue
+        seen.add(frozenset((ext, other)))
+        k = len(seen)
+        d = rnd.choice(dirs)
+        pair = [os.path.join(d, "cv%d%s" % (k, ext)), os.path.join(d, "cv%d%s" % (k, other))]
+        if k % 2:
+            pair.reverse()
+        for r in pair:
+            files[r] = content(_lang_of(r) or lang0)
     for lang in sr.LANGS:
         for i in range(ctx.pick(5, 25)):
             d = rnd.choice(dirs)
@@ -409,6 +487,23 @@ def tree_eval(files, ops, only=None, spellings=False):
     return judged, fails
 
 
+def fresh_tree_eval(files, ops, only=None):
+    """tree_eval in a NEW interpreter (not a fork): a scenario handed out as failing input must fail without whatever
+    module-level state the scans of the full tree left behind in this process"""
+    import json
+    import subprocess
+    prog = "import sys, json; sys.path.insert(0, %r); from props import C05; d = json.load(sys.stdin); " \
+           "n, fs = C05.tree_eval({r: x.encode('latin-1') for r, x in d['files'].items()}, d['ops'], d['only']); print('RESULT' + json.dumps([n, fs]))" % os.path.dirname(os.path.dirname(os.path.abspath(__file__)))
+    try:
+        p = subprocess.run([sys.executable, "-c", prog], input=json.dumps({"files": {r: x.decode("latin-1") for r, x in files.items()}, "ops": ops, "only": only}),
+                           capture_output=True, text=True, timeout=300)
+        line = [l for l in p.stdout.splitlines() if l.startswith("RESULT")][-1]
+        n, fs = json.loads(line[6:])
+        return n, fs
+    except Exception:  # noqa
+        return tree_eval(files, ops, only)
+
+
 def _nf(s):
     import unicodedata
     return unicodedata.normalize("NFC", s)
@@ -420,7 +515,7 @@ def tree_failures(ctx, dist=None):
     if dist is not None:
         dist["tree"] = {"files": len(files), "history_operations": len(ops), "files_judged_over_all_scans": judged,
                         "renamed_to_another_language": sum(1 for o in ops if o["op"] == "rename" and _lang_of(o["from"]) != _lang_of(o["to"])),
-                        "twin_names": sum(1 for r in files if _nf(r) != r), "non_lf_line_ends": sum(1 for d in files.values() if b"\r" in d)}
+                        "twin_names": sum(1 for r in files if _nf(r) != r), "extension_case_variants": sum(1 for r in files if os.path.basename(r).startswith("cv")), "non_lf_line_ends": sum(1 for d in files.values() if b"\r" in d)}
     out = []
     for f in raw[:6]:
         # a small scenario that still fails: the file (under the name it was created with), the files whose names are
@@ -428,7 +523,24 @@ def tree_failures(ctx, dist=None):
         keep = {r for r in files if f["file"] is not None and (r in (f["file"], f.get("origin")) or _nf(r) in (_nf(f["file"]), _nf(f.get("origin") or "")))}
         sub = {r: files[r] for r in files if r in keep}
         sops = [o for o in ops if o.get("from") in keep or o.get("rel") in keep or o.get("to") in keep]
-        small = tree_eval(sub, sops, None)[1] if sub else []
+        small = fresh_tree_eval(sub, sops, None)[1] if sub else []
+        if not small and f["file"] is not None:
+            # the failure needs other files (state carried from one file to the next): halve the set of the others
+            # as long as the same file still fails
+            rest = [r for r in files if r not in keep]
+            failing = lambda extra: [g for g in fresh_tree_eval({r: files[r] for r in files if r in keep or r in extra}, sops, None)[1] if g["file"] == f["file"]]
+            for _ in range(8):
+                if len(rest) <= 1:
+                    break
+                half = [rest[:len(rest) // 2], rest[len(rest) // 2:]]
+                hit = next((h for h in half if failing(set(h))), None)
+                if hit is None:
+                    break
+                rest = hit
+            got = failing(set(rest)) if len(rest) < len(files) - len(keep) else []
+            if got:
+                small = got
+                sub = {r: files[r] for r in files if r in keep or r in set(rest)}
         if small:
             g = small[0]
             inp = {"stream": "tree", "files_latin1": {r: d.decode("latin-1") for r, d in sub.items()}, "ops": sops}
@@ -449,6 +561,7 @@ def _tree_job(tier):
 def correspond(ctx):
     tree_run = scan_streams.Heavy(_tree_job, [ctx.tier], 1)        # runs next to everything else
     cs = cases(ctx)
+    sizes = scan_streams.Heavy(_filesize_work, filesize_jobs(ctx), 6)
     heavy = scan_streams.Heavy(_big_work, big_jobs(ctx))          # runs while the small inputs are compared with the model
     both = scan_streams.chunked_map(_chunk_work, cs)                # real analysis and direct oracle side by side
     real = [r for (r, _) in both]
@@ -469,6 +582,9 @@ def correspond(ctx):
             dist["errors"] += 1
     nbig, bfails = big_failures(ctx, dist, heavy)
     fails += bfails
+    nsize, sfails = filesize_failures(ctx, dist, sizes)
+    fails += sfails
+    nbig += nsize
     ntree, tfails, tdist = tree_run.results()[0]
     dist.update(tdist)
     fails += tfails
@@ -492,7 +608,7 @@ def correspond(ctx):
             fails.append({"input": {"language": lang, "code": code}, "observed": repr(e), "required": "_analyze_file completes"})
     return {
         "evaluations": len(cs) + nbig + probes, "distinct_nontrivial": len(nontrivial) + nbig,
-        "rule": "FILES: a tree of generated programs in all languages (function names drawn with replacement from words that are keywords in another supported language) and malformed texts, with LF / CR LF / CR / mixed line ends and UTF-8 signatures, under file names from Pygments and Unicode (every name mapped to the language, NFC / NFD twins in one directory, awkward characters), observed through Scanner.scan_path(root).files: every file of a supported language is listed under its own path and language with well-formed measurements for ITS text; then a history (renames and moves keeping the bytes, also to another language's extension; contents replaced with back-dated modification times; removals) and a second scan_path with the first scan's report as cache, judged the same way; the final tree once more with the root spelled through a symbolic link and through `<root>/<dir>/..`; malformed stream (prefixes, suffixes, line/token deletions, duplications, swaps of canonical programs and corpus files; token soups over each language's lexical alphabet; deep nesting; tiny inputs) + canonical programs + vendored corpus; configuration variants: canonical programs rendered on ONE line without any newline / behind a byte order mark / both, and a share of all other texts likewise (+ a blank replaced by a Unicode separator); single-line ladder 10^2 .. 10^6 characters (string literal, block comment followed by a function, short statements, one-line function; a quarter behind a byte order mark); programs of 10^2 .. 10^4 lines (one function / many functions), whole and cut at a random character - up to 10^4 characters against the model, above by the direct oracle only; second-scan probe on a sample (same token list and Language object, first result mutated; then a fresh analysis); non-trivial = distinct inputs with at least one reported measurement",
+        "rule": "FILE-SIZE LADDER: one file of exactly n characters (n = 10^3, 10^4, 10^5; thorough up to 3*10^6; plus n-1, n, n+1, 2n for every integer literal that is new in the source under check), made of functions whose bodies are tokens spanning several lines (doc strings, multi-line / raw / verbatim / template strings, block comments inside statements), in Python and two other languages per rung, LF / CR LF, scanned through Scanner.scan_path and judged by the direct oracle on the file's text; CASE VARIANTS of file extensions (x.c next to x.C, x.h / x.H, ... created in both orders; each analysed as the language Pygments gives the NAME) and top-level `keyword (..) {` blocks whose keyword is an identifier in another supported language; FILES: a tree of generated programs in all languages (function names drawn with replacement from words that are keywords in another supported language) and malformed texts, with LF / CR LF / CR / mixed line ends and UTF-8 signatures, under file names from Pygments and Unicode (every name mapped to the language, NFC / NFD twins in one directory, awkward characters), observed through Scanner.scan_path(root).files: every file of a supported language is listed under its own path and language with well-formed measurements for ITS text; then a history (renames and moves keeping the bytes, also to another language's extension; contents replaced with back-dated modification times; removals) and a second scan_path with the first scan's report as cache, judged the same way; the final tree once more with the root spelled through a symbolic link and through `<root>/<dir>/..`; malformed stream (prefixes, suffixes, line/token deletions, duplications, swaps of canonical programs and corpus files; token soups over each language's lexical alphabet; deep nesting; tiny inputs) + canonical programs + vendored corpus; configuration variants: canonical programs rendered on ONE line without any newline / behind a byte order mark / both, and a share of all other texts likewise (+ a blank replaced by a Unicode separator); single-line ladder 10^2 .. 10^6 characters (string literal, block comment followed by a function, short statements, one-line function; a quarter behind a byte order mark); programs of 10^2 .. 10^4 lines (one function / many functions), whole and cut at a random character - up to 10^4 characters against the model, above by the direct oracle only; second-scan probe on a sample (same token list and Language object, first result mutated; then a fresh analysis); non-trivial = distinct inputs with at least one reported measurement",
         "samples": [{"language": l, "code": c[:120], "impl": r[:120]} for (l, c), r in list(zip(cs, real))[100:103]],
         "exhaustive": False, "distribution": dist,
         "disagreements": dis[:50], "oracle_failures": fails[:50],
@@ -507,7 +623,7 @@ def search(ctx, hints):
         for b in oracle(lang, code, r):
             fails.append({"input": {"language": lang, "code": code}, "observed": r[:300], "required": b})
     fails.sort(key=lambda f: len(f["input"]["code"]))
-    return fails[:10] + big_failures(ctx)[1][:3] + tree_failures(ctx)[1][:3]
+    return fails[:10] + big_failures(ctx)[1][:3] + filesize_failures(ctx, {})[1][:2] + tree_failures(ctx)[1][:3]
 
 
 def replay(payload):
@@ -518,6 +634,10 @@ def replay(payload):
                                                                     [(o["op"], o.get("from") or o.get("rel"), o.get("to")) for o in inp["ops"]][:4],
                                                                     [(f["file"], f["phase"], f["required"]) for f in fs[:3]] or "ok"))
         return not fs
+    if inp.get("stream") == "file-size":
+        r, bad = _filesize_work(inp)
+        print("%s file of %d characters (%s ...) through scan_path -> %s; %s" % (inp["language"], inp["chars"], scan_streams.multiline_text(inp)[:60].replace("\n", "\\n"), r[:200], bad[:1] or "ok"))
+        return not bad
     code = inp["code"] if "code" in inp else big_text(inp)
     if inp.get("probe") == "second-scan":
         r, bad = "", second_scan_probe(inp["language"], code)
